@@ -69,8 +69,20 @@ func (p *Prog) mutexIDOfExpr(f *Func, x ast.Expr) string {
 		x = unparen(u.X)
 	}
 	info := f.Info()
+	isSyncType := func(t types.Type) bool {
+		if t == nil {
+			return false
+		}
+		if pt, ok := t.(*types.Pointer); ok {
+			t = pt.Elem()
+		}
+		if n, ok := t.(*types.Named); ok && n.Obj().Pkg() != nil && n.Obj().Pkg().Path() == "sync" {
+			return true
+		}
+		return false
+	}
 	if se, ok := x.(*ast.SelectorExpr); ok {
-		if s, ok := info.Selections[se]; ok && s.Kind() == types.FieldVal {
+		if s, ok := info.Selections[se]; ok && s.Kind() == types.FieldVal && isSyncType(info.TypeOf(x)) {
 			return fieldOwnerName(s)
 		}
 	}
